@@ -19,6 +19,14 @@ pub struct Sinkhorn<'a> {
     rhs: Potential,
 }
 
+#[cfg(robopoker_verif)]
+impl Sinkhorn<'_> {
+    /// verification hook: one entry of the transport plan
+    pub fn verif_coupling(&self, x: &Abstraction, y: &Abstraction) -> Energy {
+        self.coupling(x, y)
+    }
+}
+
 impl Sinkhorn<'_> {
     /// calculate ε-minimizing coupling by scaling potentials
     fn sinkhorn(&mut self) {
